@@ -134,6 +134,14 @@ def compare(b, inputs, ts, res, base=None, confs=None):
             runs[t] = rows if (not err and rows is not None and len(rows) == len(inputs)) else None
     finally:
         b.confidence_threshold = 0
+    # the same object back at the default threshold: must reproduce the first run (no state carried over)
+    again, _, err2 = pipeline.run(b, inputs)
+    res.ev()
+    res.count("back_to_zero_runs")
+    if err2 or again is None or [{k: r.get(k) for k in COLS} for r in again] != [{k: r.get(k) for k in COLS} for r in base]:
+        if not any(tainted(r) for r in (again or [])) and not any(tainted(r) for r in base):
+            res.viol("threshold_zero_run_differs_after_other_thresholds", inputs=inputs, thresholds=ts[-1:],
+                     case={"reaction": inputs[0], "threshold": 0})
     taint = set()
     for t, rows in runs.items():
         for i, r in enumerate(rows or []):
@@ -193,4 +201,4 @@ def compare(b, inputs, ts, res, base=None, confs=None):
 
 def conclude_args(res, tier, seed):
     return {"need": {"mcs_rows_evaluated": 300, "other_rows_evaluated": 100, "demotions_evaluated": 100,
-                     "thresholds_run": 60}, "min_cases": 100}
+                     "thresholds_run": 60, "back_to_zero_runs": 5}, "min_cases": 100}
